@@ -1511,7 +1511,9 @@ class Sym:
         self.uses.add("external:" + name)
         memo_key = (name, e.params["static"], tuple(_tid(x) for a in ins for x in a.reshape(-1)))
         if memo_key in self.ext_memo:
-            return self.ext_memo[memo_key][1]
+            outs = self.ext_memo[memo_key][1]
+            self.ext_log.append((name, e.params["uid"], self.loop_depth, outs))   # same outcome pinned for this call site too
+            return outs
         outs = [self.fresh_array("ext_" + name, av.shape, av.dtype) for av in e.params["out_avals"]]
         self.ext_handlers[name](self, e, outs, ins)
         self.ext_memo[memo_key] = (ins, outs)  # keep ins alive: z3 ids are reused after GC
